@@ -15,7 +15,7 @@ from . import common, mapfam
 
 ID = 'C17'
 LEVEL = 'exploration'
-QUOTA = {'quick': 600, 'thorough': 8000}
+QUOTA = {'quick': 1300, 'thorough': 8000}
 BUDGET = {'quick': 100, 'thorough': 900}
 RULE = ('scenario = pair of mapping runs with a common seed and the same chunks: drop_level=L vs a reference whose '
         'taxonomy never had L (every non-leaf L of every generated tree is reachable), flatten vs a one-level taxonomy '
